@@ -102,7 +102,7 @@ REGISTRY['C05'] = numeric('C05', 'c05_jacobians.cpp', nq=3000, nt=160000, shard=
                                                                        'float instantiations are held to 1e-2 only (the property states its bound for double)'])
 
 REGISTRY['C04'] = numeric('C04', 'c04_plusminus.cpp', nq=15000, nt=450000,
-                          rule='plus/minus/between definitions vs model and 45 alias forms (members, operators, tangent-side forms, functions.h facade, Map operands) compared bit-for-bit '
+                          rule='plus/minus/between definitions vs model and 60 alias forms (values and Jacobian routing) (members, operators, tangent-side forms, functions.h facade, Map operands) compared bit-for-bit '
                                'with the canonical member; ' + RULE_STRATA, assumptions=ASSUME_FP)
 
 ALL_BUNDLES = ['BT0', 'BT1', 'BT2', 'BT3', 'BT4', 'BT5', 'BT6', 'BS0', 'BS1', 'BS2', 'BS3', 'BS4', 'BS5', 'BS6', 'BR0', 'BR1', 'BR2', 'BL0', 'BA', 'BC', 'BD']
@@ -516,7 +516,7 @@ MANIFEST_META = {
     'C03': dict(engine='ref-model differential monitor', design_ref='DESIGN.md 4/C03', technique='differential runtime monitor over six element-production routes vs model exp/log',
                 text='X.log() is checked (finite, principal, exp_ref(log X)=X, equal to the model logarithm, log(q)=log(-q), t.exp().log()=t) on elements produced by six routes including both quaternion hemispheres and products of near-pi rotations (angle 2pi-eps), which no unit test generates.',
                 note=NOTE_NUM + ' Near pi the tolerance carries the documented conditioning term 16u/(pi-theta).'),
-    'C04': dict(engine='ref-model differential monitor', design_ref='DESIGN.md 4/C04', technique='runtime monitor: definitions vs long-double model + bit-exact differential comparison of 45 alias forms',
+    'C04': dict(engine='ref-model differential monitor', design_ref='DESIGN.md 4/C04', technique='runtime monitor: definitions vs long-double model + bit-exact differential comparison of 60 alias forms (values and Jacobian routing)',
                 text='rplus/lplus/rminus/lminus/between are compared with the compositions they are documented to be, evaluated on the reference model, incl. the round trips (X+t)-X=t and X+(Y-X)=Y up to relative rotation pi-1e-6; every alias (plus/minus, operators, tangent-side forms, the functions.h facade incl. its Jacobian outputs, Map/Map<const> operands) must return bit-identical coefficients to the canonical member on the same operands.',
                 note=NOTE_NUM + ' Bit-identity of forwards is a sound expectation under the baseline FP model (no FMA contraction); measured 0 differences on the unchanged tree.'),
     'C05': dict(engine='ref-model differential monitor', design_ref='DESIGN.md 4/C05', technique='runtime monitor: analytic Jacobians vs 4th-order central differences of the definition on the long-double model',
